@@ -303,7 +303,7 @@ fn switch_tag_in_guard_context(toks: &[HTok]) -> bool {
     for t in toks {
         if let HTok::Start { name, .. } = t {
             let n = name.to_ascii_lowercase();
-            let exempt = st == GuardSt::InSelect && matches!(n.as_str(), "script" | "textarea" | "select" | "input" | "keygen");
+            let exempt = (st == GuardSt::InSelect && matches!(n.as_str(), "script" | "textarea" | "select" | "input" | "keygen")) || (st == GuardSt::Frameset && n == "noframes");
             if st != GuardSt::Default && !exempt && gen::TEXT_MODE_NAMES.contains(&n.as_str()) {
                 return true;
             }
@@ -365,6 +365,13 @@ pub fn check(input: &[u8], cuts: &[usize]) -> Result<Obs, (String, String)> {
     let l_h = to_htoks(&lax_toks).map_err(|e| ("token-protocol".to_string(), format!("{e}{}", ctx())))?;
     if s_h != l_h {
         return Err(("strict-differs-from-nonstrict".into(), format!("{}{}", crate::norm::first_diff(&s_h, &l_h), ctx())));
+    }
+    // "ambiguity is refused": a strict run must not succeed when a text-mode switching start tag sits inside select /
+    // template-in-select / after a frameset start tag (syntactic model of the statement's parenthesis over the run's own
+    // token stream; `script` in select and `noframes` after frameset are unambiguous). html5ever 0.39 cannot decide this
+    // half: it implements the newer select content model in which such tags are never ignored.
+    if switch_tag_in_guard_context(&norm_h(s_h.clone())) {
+        return Err(("ambiguity-not-refused".into(), format!("the strict run succeeded although a text-mode switching start tag occurs inside select / template in select / after frameset{}", ctx())));
     }
     // the WHATWG oracle
     let oracle = norm_h(html5ever_tokens(text));
@@ -525,6 +532,8 @@ impl Prop for C03 {
                     }
                 }
                 d.bytes
+            } else if i % 8 == 1 {
+                gen::guard_soup(&mut ctx.rng)
             } else {
                 let mut v = gen::soup(&mut ctx.rng, 24, SoupKind::HtmlOnly, false);
                 if ctx.rng.chance(1, 12) {
